@@ -557,6 +557,7 @@ func driveCodec(w *writer) error {
 			w.emit(doCoilExtract(&c))
 		case "coilroundtrip":
 			w.emit(doCoilRoundTrip(&c))
+			w.emit(doCoilDevice(&c))
 		default:
 			return fmt.Errorf("unknown codec op %q", c.Op)
 		}
@@ -857,8 +858,14 @@ func sortStrings(a []string) {
 	}
 }
 
+// the error object of the previous "unsupported function" classification and what it encoded to then
+var lastUnsup *packet.ErrorParseTCP
+var lastUnsupThen []int
+var lastUnsupFrame []int
+
 func doClassify(c *codecCase) Ev {
-	e := Ev{"op": "classify", "frame": orEmpty(c.Frame), "allow": c.Allow, "n": 0, "kind": "", "excBytes": []int{}, "tag": c.Tag}
+	e := Ev{"op": "classify", "frame": orEmpty(c.Frame), "allow": c.Allow, "n": 0, "kind": "", "excBytes": []int{}, "tag": c.Tag,
+		"prevThen": []int{}, "prevNow": []int{}, "prevFrame": []int{}}
 	func() {
 		defer func() {
 			if p := recover(); p != nil {
@@ -878,6 +885,11 @@ func doClassify(c *codecCase) Ev {
 		case errors.As(err, &pt):
 			e["kind"] = "unsupported"
 			e["excBytes"] = ints(pt.Bytes())
+			if lastUnsup != nil {
+				// the exception handed out for an EARLIER frame must still be the one for that frame
+				e["prevThen"], e["prevNow"], e["prevFrame"] = lastUnsupThen, ints(lastUnsup.Bytes()), lastUnsupFrame
+			}
+			lastUnsup, lastUnsupThen, lastUnsupFrame = pt, ints(pt.Bytes()), orEmpty(c.Frame)
 		default:
 			e["kind"] = "othererr"
 		}
